@@ -8,6 +8,7 @@ package c19
 import (
 	"encoding/json"
 	"fmt"
+	"os"
 	"regexp"
 	"sort"
 	"strings"
@@ -54,7 +55,7 @@ func plans(tier string, tmpl []replica.Template, nBase int) []plan {
 	}
 	for i := 0; i < nBase; i++ {
 		for j := 0; j < nBase; j++ {
-			if tier == "thorough" || (i*7+j)%4 == 0 {
+			if tier == "thorough" || (i*7+j)%4 == 0 || curated[tmpl[i].Name+">"+tmpl[j].Name] {
 				out = append(out, plan{replica.Plan{Blocks: [][]int{{i}, {j}}, Tail: 1}, name(i, j)})
 			}
 		}
@@ -73,6 +74,10 @@ func plans(tier string, tmpl []replica.Template, nBase int) []plan {
 	}
 	return out
 }
+
+// curated pairs are always run: histories whose second step consumes what the first created.
+var curated = map[string]bool{"liquidate>redeemAll": true, "liquidate>convertERC20": true, "liquidate>liquidate": true, "stakingDelegate>stakingUndelegate": true,
+	"daoFund>daoTransferRatio": true, "vestingCreate>liquidate": true, "pcDelegate>pcClaimRewards": true}
 
 var idx = regexp.MustCompile(`\[\d+\]`)
 
@@ -135,7 +140,17 @@ func Worker(shard, n int, tier string) *engine.Result {
 		if i%n != shard {
 			continue
 		}
-		_, _, wa := f.RunReference(p.Plan, tmpl)
+		if only := os.Getenv("VERIF_ONLY"); only != "" && only != p.desc {
+			continue
+		}
+		_, ref, wa := f.RunReference(p.Plan, tmpl)
+		if os.Getenv("VERIF_ONLY") != "" {
+			for _, st := range ref {
+				if strings.Contains(st.Label, "deliver") {
+					fmt.Println(st.Label, short(st.Detail))
+				}
+			}
+		}
 		res.Evaluations++
 		res.Transitions++
 		nondet.MapSeed(true, 0)
@@ -147,6 +162,11 @@ func Worker(shard, n int, tier string) *engine.Result {
 		}
 		if err != nil {
 			viol("app", "export", "error", "export failed", map[string]any{"err": err.Error()})
+			continue
+		}
+		if len(exp1.Validators) == 0 {
+			// the history emptied the validator set: a halted chain has no genesis to restart from
+			res.Outcomes["halted-chain-skipped"]++
 			continue
 		}
 		// --- import into B
@@ -169,6 +189,11 @@ func Worker(shard, n int, tier string) *engine.Result {
 			wb.App.Commit()
 		}()
 		if panicked != "" {
+			if os.Getenv("VERIF_ONLY") != "" {
+				var d map[string]json.RawMessage
+				_ = json.Unmarshal(exp1.AppState, &d)
+				fmt.Println(string(d["staking"]))
+			}
 			viol("app", "initchain", "panic", "a fresh node cannot be initialised from the exported genesis", map[string]any{"panic": short(panicked)})
 			continue
 		}
@@ -267,8 +292,9 @@ func Run(tier string) int {
 	res.Sample(map[string]any{"history": "liquidate>convertERC20, export after 1 empty block, import, export"})
 	return engine.Finish(res, engine.Meta{
 		Property: Prop, Tier: tier, Level: "model_checking", Start: start,
-		Rule: "histories: idle chain, every template (base + governance flows) alone with export after settling and with export right after the carrying block, a quarter (thorough: all) of ordered pairs, thorough: one chain of all templates; after each: export A -> InitChain+Commit on a fresh node B -> export B; the two JSON documents are diffed leaf by leaf, the 27-query battery is compared, ValidateGenesis on the export and all crisis invariants on B; transitions = export/import cycles",
+		Rule: "histories: idle chain, every template (base + governance flows) alone with export after settling and with export right after the carrying block, a quarter (thorough: all) of ordered pairs plus curated pairs whose second step consumes what the first created, thorough: one chain of all templates; after each: export A -> InitChain+Commit on a fresh node B -> export B; the two JSON documents are diffed leaf by leaf, the 27-query battery is compared, ValidateGenesis on the export and all crisis invariants on B; transitions = export/import cycles",
 		Assumptions: []string{
+			"a history that empties the validator set (halted chain) is skipped and counted under outcomes",
 			"ibc 09-localhost latest_height is by definition the height of the exporting context and is not compared for equality",
 			"B is committed right after InitChain (no block executed), so both documents describe the same instant",
 		},
